@@ -566,6 +566,25 @@ def run(sched):
                 site.add_resource(["h", str(n)], Scripted(int(n), plan))
         ctx = await w.make_context(site=site)
         state["ctx"] = ctx
+        if sched.get("stall_interface") is not None:
+            # a further request interface whose orderly shutdown depends on a peer that does not cooperate
+            # (a WebSocket close handshake, a TLS close_notify): it takes that long, or for ever ("never")
+            stall = sched["stall_interface"]
+
+            class Stalling:
+                async def fill_or_recognize_remote(self, message):
+                    return False
+
+                async def shutdown(self):
+                    if stall == "never":
+                        await w.loop.create_future()
+                    else:
+                        await asyncio.sleep(stall / 1024.0)
+
+                def __repr__(self):
+                    return "<stalling interface>"
+
+            ctx.request_interfaces.append(Stalling())
         sock = ctx._verif["sock"]
         state["sock"] = sock
         orig_recvmsg = sock.recvmsg
@@ -687,7 +706,21 @@ def run(sched):
                         ev("done", q=q, cls="resp", code=int(res.code), plen=len(res.payload), x=zlib_hex(res.payload))
 
                 req.response.add_done_callback(done_cb)
-                if getattr(req, "observation", None) is not None and step.get("observe") is not None:
+                if getattr(req, "observation", None) is not None and step.get("observe") is not None and step.get("iterate"):
+                    # the application consumes the observation with `async for`
+
+                    async def consume(req=req, q=q):
+                        try:
+                            async for msg in req.observation:
+                                ev("notif", q=q, obs=-1 if msg.opt.observe is None else msg.opt.observe, code=int(msg.code), plen=len(msg.payload))
+                            ev("obsend", q=q, cls="clean", x="StopAsyncIteration")
+                        except asyncio.CancelledError:
+                            raise
+                        except Exception as exc:
+                            ev("obsend", q=q, cls=err_class(exc), x=type(exc).__name__)
+
+                    state.setdefault("consumers", []).append(w.loop.create_task(consume()))
+                elif getattr(req, "observation", None) is not None and step.get("observe") is not None:
                     import warnings
 
                     with warnings.catch_warnings():
